@@ -384,6 +384,8 @@ struct Mon {
     void at_2(const std::vector<cell_ptr>& l) {
         std::set<unsigned> before(prev_ids.begin(), prev_ids.end()), now; for (auto& p : l) now.insert(p->get_id());
         std::vector<unsigned> gone, born; for (unsigned id : before) if (!now.count(id)) gone.push_back(id); for (unsigned id : now) if (!before.count(id)) born.push_back(id);
+        // a cell that was ready and is still there at a division point: its division was attempted and could not be completed
+        if (iter % 5 == 0) for (unsigned id : now) if (before.count(id) && ready_at_1.count(id) && ready_at_1[id]) L->bin("division_attempts_failed_mother_survives");
         if (gone.empty() && born.empty()) return;
         if (iter % 5 != 0) { viol("population_changed_outside_division_and_removal", "population changed at the division point of an iteration that is not a multiple of 5"); return; }
         for (unsigned id : gone) if (!ready_at_1[id]) { viol("divided_although_not_ready", "cell id " + std::to_string(id) + " disappeared at the division point although is_ready_to_divide() was false"); return; }
@@ -421,6 +423,8 @@ struct Mon {
             L->bin(po.p_exp > 0 ? "cell_steps_pressure:positive" : po.p_exp < 0 ? "cell_steps_pressure:negative" : "cell_steps_pressure:zero");
             if (!(dp <= po.tol) || (po.cap_active && pr != ct->max_pressure_)) { viol(po.cap_active ? "pressure_cap" : (K == 0 ? "pressure_law_K0" : "pressure_law"), who + ": pressure " + fmt(pr) + ", law min(p_max, -K ln(V/Vt)) gives " + fmt(po.p_exp) + " (uncapped " + fmt(po.p_unc) + ", p_max " + fmt(ct->max_pressure_) + ", K " + fmt(K) + ", V " + fmt(og.V) + ", Vt " + fmt(t.vo.Vt) + ")"); return; }
             if (!in_3sigma(p->get_growth_rate(), ct->avg_growth_rate_, ct->std_growth_rate_)) { viol("growth_rate_outside_3_sigma", who + ": growth rate " + fmt(gr)); return; }
+            // the division volume of a living cell is the one drawn for it, whatever happened to it since (failed division attempts included)
+            if (!std::isinf(ct->avg_division_vol_) ? !in_3sigma(p->get_division_volume(), ct->avg_division_vol_, ct->std_division_vol_) : p->get_division_volume() != ct->avg_division_vol_) { viol("division_volume_outside_3_sigma", who + ": division volume " + fmt(p->get_division_volume()) + " (mean " + fmt(ct->avg_division_vol_) + ", sigma " + fmt(ct->std_division_vol_) + ") during the run"); return; }
             sig = hash_combine(sig, hash_combine(hash_double(vt), hash_double(pr)));
         }
     }
@@ -472,16 +476,21 @@ std::string solver_case(const Args& a, long i, const std::string& folder) {
     // the first iteration, the first cell is an epithelial cell that grows past its division volume a few iterations later: the ids of the daughters
     // must be new although the largest id of the population has just left it
     const bool young_removed = division_run && ncell >= 2 && g.coin(0.4);
+    const bool symmetric_mother = division_run && !young_removed && g.coin(0.5);
     const int k0_cell = scenario == 9 ? g.range(0, ncell - 1) : -1; const int below_cell = young_removed ? ncell - 1 : (scenario == 4 || scenario == 5) ? g.range(0, ncell - 1) : -1;
     const double growth_sign_run = scenario == 8 ? -1 : 0;
     struct CellPlan { int cls; double r, K, V0; };
     std::vector<CellPlan> plan;
     for (int k = 0; k < ncell; k++) {
-        gen::TriMesh m = base; const double r = r0 * g.uni(0.8, 1.25); gen::jitter(m, g, g.uni(0.0, 0.02)); gen::rotate(m, gen::rot_random(g)); gen::scale(m, r, r, r);
-        const double gap = r * g.uni(2.6, 4.0); along += gap; gen::translate(m, dirv[0] * along, dirv[1] * along, dirv[2] * along); along += gap;
+        gen::TriMesh m = base; const double r = r0 * g.uni(0.8, 1.25);
+        // a mesh that is symmetric with respect to its own division plane (icosphere stretched along x, neither jittered nor rotated): the plane
+        // through the centroid passes through mesh nodes, the division pipeline gives up and the mother lives on
+        if (symmetric_mother && k == 0) { gen::scale(m, g.uni(1.3, 1.6), 1, 1); gen::scale(m, r, r, r); }
+        else { gen::jitter(m, g, g.uni(0.0, 0.02)); gen::rotate(m, gen::rot_random(g)); gen::scale(m, r, r, r); }
+        const double gap = r * (symmetric_mother && k == 0 ? 1.6 : 1.0) * g.uni(2.6, 4.0); along += gap; gen::translate(m, dirv[0] * along, dirv[1] * along, dirv[2] * along); along += gap;
         for (auto& t : m.T) for (int e = 0; e < 3; e++) { auto& A = m.P[t[e]]; auto& B = m.P[t[(e + 1) % 3]]; double d = std::sqrt((A[0] - B[0]) * (A[0] - B[0]) + (A[1] - B[1]) * (A[1] - B[1]) + (A[2] - B[2]) * (A[2] - B[2])); emin = std::min(emin, d); emax = std::max(emax, d); }
         int cls; { double u = g.uni(); cls = u < 0.45 ? 0 : u < 0.6 ? 2 : u < 0.75 ? 3 : u < 0.87 ? 4 : 1; } if (k == k0_cell && cls == 1) cls = g.coin() ? 2 : 4;
-        if (young_removed && k == 0) cls = 0; if (young_removed && k == ncell - 1 && cls == 1) cls = 0;
+        if ((young_removed || symmetric_mother) && k == 0) cls = 0; if (young_removed && k == ncell - 1 && cls == 1) cls = 0;
         std::shared_ptr<cell_type_parameters> ct;
         const bool share = k > 0 && k != k0_cell && k - 1 != k0_cell && k != below_cell && k - 1 != below_cell && plan[k - 1].cls == cls && g.coin(0.25);
         if (share) ct = cts[k - 1]; else { ct = gen::default_cell_type(3, (short)cls); ct->name_ = std::string(CLSNAME[cls]) + std::to_string(k); }
@@ -508,6 +517,7 @@ std::string solver_case(const Args& a, long i, const std::string& folder) {
             if (young_removed && k == 0) { ct->avg_growth_rate_ = g.uni(0.3, 0.6) * V0; ct->std_growth_rate_ = 0; }
             ct->avg_division_vol_ = (division_run && cls == 0) ? V0 * g.uni(0.6, 1.05) : (cls == 0 || g.coin() ? INFINITY : 0.0); ct->std_division_vol_ = (division_run && g.coin()) ? 0.05 * V0 : 0.0;
             if (young_removed && k == 0) { ct->avg_division_vol_ = V0 * g.uni(1.01, 1.04); ct->std_division_vol_ = 0; }
+            if (symmetric_mother && k == 0) { ct->avg_division_vol_ = V0 * g.uni(0.6, 0.95); ct->std_division_vol_ = g.coin() ? 0.01 * V0 : 0.0; }
             ct->area_elasticity_modulus_ = g.coin() ? 0.0 : 1e-15; ct->target_isoperimetric_ratio_ = 150; ct->surface_coupling_max_curvature_ = 1e7;
         }
         // stability of the semi-implicit Euler step: breathing mode omega^2 = 9 K / (rho r^2), membrane modes ~ 16 gamma / m_node
@@ -526,6 +536,7 @@ std::string solver_case(const Args& a, long i, const std::string& folder) {
     // every edge inside [l_min, 3 l_min] with the largest possible margin on both sides
     sp.min_edge_len_ = std::sqrt(emin * emax / 3.0); sp.contact_cutoff_adhesion_ = 0.05 * r0; sp.contact_cutoff_repulsion_ = 0.05 * r0;
     if (young_removed) L.bin("scenario:youngest_cell_removed_then_division");
+    if (symmetric_mother) L.bin("scenario:mother_symmetric_about_its_division_plane");
     L.bin(std::string("scenario:") + (scenario <= 3 ? "generic" : scenario <= 5 ? "one_cell_starts_below_min_vol" : scenario <= 7 ? "forced_removal" : scenario == 8 ? "stiff_cells_shrinking" : "K_zero_on_a_cell_with_forces"));
     L.bin("cells_per_run:" + std::to_string(ncell)); L.bin("icosphere_level:" + std::to_string(level)); if (division_run) L.bin("division_enabled_runs");
     // ---- run
